@@ -323,6 +323,17 @@ class Check(object):
             raise
         except Exception as e:
             tb = traceback.format_exc()
+            # an exception raised INSIDE the code under test (innermost frame in the repository) on an input the harness built for it is
+            # the code's behaviour, not a harness defect: it is reported with this input as the replay.  Anything raised by harness code
+            # stays an infrastructure error.
+            frames = traceback.extract_tb(e.__traceback__)
+            repo = os.path.realpath(os.environ.get("VERIF_REPO", "/repo"))
+            inner = frames[-1] if frames else None
+            if inner is not None and os.path.realpath(inner.filename).startswith(repo + os.sep):
+                where = "%s:%s" % (os.path.relpath(os.path.realpath(inner.filename), repo), inner.name)
+                return [oracle("%s:code-under-test-raises:%s@%s" % (self.pid, type(e).__name__, where),
+                               "stream %s, case %s: %s raised inside the library (%s line %d): %s — the check drives the library with inputs of the property's domain and "
+                               "expects no exception here" % (stream, json.dumps(case)[:300], type(e).__name__, where, inner.lineno, str(e)[:200]))]
             raise InfraError("harness crashed on stream=%s case=%s\n%s" % (stream, json.dumps(case)[:500], tb))
         return fs
 
